@@ -27,6 +27,8 @@ def gen_net(rng, version):
     nf = rng.randint(1, 4)
     f0 = rng.choice([1e3, 2.5e6, 1e9, 3.3e10])
     freqs = [f0 * (1 + 0.37 * k) for k in range(nf)]
+    if rng.random() < 0.15:
+        freqs = [0.0] + freqs[:-1] if nf > 1 else [0.0]          # a grid that starts at the DC point
     scale = {'z': 50.0, 'y': 0.02}.get(param, 1.0)
     sym = rng.random() < 0.5
     data = []
